@@ -472,3 +472,36 @@ Lemma ex_samples_hyps :
           (msub fsKuu (mmul 1 (interp_covar_cache 1 1 fsKuu fsKuu fsS)
                               (mT (interp_covar_cache 1 1 fsKuu fsKuu fsS)))).
 Proof. split; apply meqb_sound; vm_compute; reflexivity. Qed.
+
+(* ------------------------------------------------------------------ index order, reversed dimensions *)
+
+Lemma prodn_app a b : prodn (a ++ b) = (prodn a * prodn b)%nat.
+Proof.
+  unfold prodn. induction a as [|x a IH]; cbn [app fold_right]; [lia|]. rewrite IH. lia.
+Qed.
+
+Lemma lex_index_snoc gs ks g k : length gs = length ks ->
+  lex_index (gs ++ [g]) (ks ++ [k]) = (lex_index gs ks * g + k)%nat.
+Proof.
+  revert ks. induction gs as [|g0 gr IH]; intros [|k0 kr] HL; try discriminate.
+  - cbn. lia.
+  - cbn [app lex_index]. rewrite IH by (cbn in HL; lia). rewrite prodn_app.
+    replace (prodn [g]) with g by (unfold prodn; cbn [fold_right]; lia). lia.
+Qed.
+
+Lemma valid_multi_length gs ks : valid_multi gs ks -> length gs = length ks.
+Proof.
+  revert ks. induction gs as [|g gr IH]; intros [|k kr] H; cbn in *; try contradiction; try reflexivity.
+  destruct H as [_ H]. f_equal. apply IH. exact H.
+Qed.
+
+(* handing the dimensions to Interpolation.interpolate in reverse order turns its lexicographic
+   flat index into the column-major index of the node *)
+Lemma reversed_lex_is_colmajor gs ks : valid_multi gs ks ->
+  lex_index (rev gs) (rev ks) = colmajor_index gs ks.
+Proof.
+  revert ks. induction gs as [|g gr IH]; intros [|k kr] H; cbn in H; try contradiction; [reflexivity|].
+  destruct H as [_ H]. cbn [rev colmajor_index].
+  rewrite lex_index_snoc by (rewrite !rev_length; apply valid_multi_length; exact H).
+  rewrite IH by exact H. lia.
+Qed.
